@@ -397,6 +397,15 @@ def part_grouped_ops(rep, arg):
                 if len(keys) != 1:
                     return g, model, f"member {op[1]} has {len(keys)} names"
                 g.pop(keys[0]); del model[op[1]]
+                # which of two equal twins went is the library's choice (not an encoding matter): the model follows
+                # the order the object now lists, so that later index operations mean the same member in both
+                actual = [m.dump() for m in g.avps]
+                if sorted(actual) == sorted(x.expected() for x in model):
+                    pool = list(model)
+                    model = []
+                    for b in actual:
+                        i = next(i for i, x in enumerate(pool) if x.expected() == b)
+                        model.append(pool.pop(i))
             elif op[0] == "setitem":
                 if op[1] >= len(model):
                     return None
